@@ -275,6 +275,25 @@ class StandardObserver:
             if "populate" in cls.__dict__:
                 _wrap_populate(cls, obs)
 
+        self.install_model_hooks()
+
+        # --- checkpoints actually written
+        orig_dump = sbase.safe_file_dump
+
+        def safe_file_dump(obj, filename, *a, **k):
+            r = orig_dump(obj, filename, *a, **k)
+            obs.ckpt_wrote = True
+            if obs.ns is not None and obj is obs.ns:
+                obs.em.emit("ckpt", digest=obs.deep_digest(obj), live=obs.live_state(obj),
+                            **obs.tails(obj), **obs.counts(obj))
+            return r
+
+        sbase.safe_file_dump = safe_file_dump
+
+    def install_model_hooks(self):
+        from nessai.model import Model
+
+        obs = self
         # --- likelihood calls (support check, evaluation counting, kill injection)
         orig_batch = Model.batch_evaluate_log_likelihood
 
@@ -300,18 +319,6 @@ class StandardObserver:
 
         Model.evaluate_log_likelihood = evaluate_log_likelihood
 
-        # --- checkpoints actually written
-        orig_dump = sbase.safe_file_dump
-
-        def safe_file_dump(obj, filename, *a, **k):
-            r = orig_dump(obj, filename, *a, **k)
-            obs.ckpt_wrote = True
-            if obs.ns is not None and obj is obs.ns:
-                obs.em.emit("ckpt", digest=obs.deep_digest(obj), live=obs.live_state(obj),
-                            **obs.tails(obj), **obs.counts(obj))
-            return r
-
-        sbase.safe_file_dump = safe_file_dump
 
     # ------------------------------------------------------------------
     def take_draws(self):
